@@ -208,7 +208,7 @@ def bfs(model, depth):
 
 
 # ---------------------------------------------------------------- value laws
-PATTERNS = ['p', 'p.a > b', '*', '#i', '[t=v]', '[t="v" i]', 'a, b', ':not(a, b)', ':is(a > b)', ':has(> a)', ':nth-child(2n+1)', ':nth-child(2 of a)',
+PATTERNS = ['p', 'p.a > b', '*', '#i', '[t=v]', '[t="v" i]', 'a, b', ':not(a, b)', ':is(a > b)', ':has(> a)', ':nth-child(2n+1)', ':nth-child(2 of a)', ':nth-last-child(2)', ':nth-of-type(2)', ':nth-last-of-type(-n+3)', ':only-child', ':last-of-type', ':-soup-contains-own("y")', ':has(+ a, > b)', '[t|=v s]',
             ':lang(en)', ':dir(ltr)', ':-soup-contains("x")', ':root', 'x|a', '[x|t]', ':checked', ':in-range', 'a b', 'a  b', 'A', ':hover', ':is()']
 NSS = [None, {}, {'x': 'u'}, {'x': 'u', 'y': 'v'}, {'y': 'v', 'x': 'u'}, {'x': 'U'}]
 CUSTOMS = [None, {}, {':--c': 'a'}, {':--c': 'a', ':--d': 'b'}, {':--d': 'b', ':--c': 'a'}]
